@@ -114,6 +114,12 @@ def check_case(case):
         else:
             state = build_state(domain, world, st)
         prev_state = state
+        if (i + len(case["probes"])) % 2 == 1:
+            # every other probe asks a copy of the state (taken before the original was asked anything)
+            okc, cp = lib_call(state.copy)
+            if okc:
+                state = cp
+                res.classes.append("state-copy")
         # probes of one call share an Operator object in every other case
         ok2, got = lib_applicable(domain, a["name"], pr["args"], objs, state, ops if len(case["probes"]) % 2 else None)
         exp = judge(res, "C02/applicable", a["pre"], env, st, world, ok2, got,
@@ -231,6 +237,8 @@ def check_sweep(case, res):
                 fl = {k: vals[k[0]] + (Fraction(1, 2) if (len(k) > 1 and k[1] == "b") else 0) for k in fluent_keys}
                 st = (facts, fl)
                 state = build_state(domain, world, st)
+                if vi == 1:
+                    state = state.copy()
                 ok2, got = lib_applicable(domain, "act", args, objs, state, sweep_ops if vi else None)
                 exp = judge(res, "C02/sweep", pre, env, st, world, ok2, got,
                             {"pre": pre, "args": list(args), "state": jstate(st)})
